@@ -54,12 +54,14 @@ def _run_op(r, tasks, *, jobs_choices, again_p=0.3, stop_early_p=0.0, fail_p=0.0
     return op
 
 
-def _base(r, n=(2, 8), kinds=KW_PROC, p_par=0.6, mon=None, p_async=(0.0, 1e-3, 1e-2, 5e-2)):
+def _base(r, n=(2, 8), kinds=KW_PROC, p_par=0.6, mon=None, p_async=(0.0, 1e-3, 1e-2, 5e-2), include_p=0.0):
     pk = _pkgs(r)
     tasks = S.gen_graph(r, r.randint(*n), kinds, pk, p_par=p_par)
     scn = {"epoch": 1_700_000_000 + r.randrange(10**6), "tasks": tasks, "pkgs": pk + ["nocond"],
            "git": {"mode": "none"}, "disable_git": r.random() < 0.5, "history": [],
            "knobs": S.gen_knobs(r, mon=mon, p_async_choices=p_async)}
+    if include_p and r.random() < include_p:
+        S.add_include(r, scn)
     return scn
 
 
@@ -88,7 +90,7 @@ def gen_C01(r):
 
 
 def gen_C02(r):
-    scn = _base(r, n=(3, 9), kinds=KW_ALL, p_par=0.5, mon=False, p_async=(0.0,))
+    scn = _base(r, n=(3, 9), kinds=KW_ALL, p_par=0.5, mon=False, p_async=(0.0,), include_p=0.15)
     if r.random() < 0.25:
         # commit flags and versions recorded at several commits (simple shapes; C05 owns the hard ones)
         scn["disable_git"] = False
@@ -102,6 +104,18 @@ def gen_C02(r):
                                       target=r.choice(list(scn["tasks"])) if r.random() < 0.5 else None))
     if r.random() < 0.2:
         scn["history"][-1]["flags"]["check"] = True
+    if r.random() < 0.05:
+        # the same dependency listed twice, spelled ":name" and "//pkg:name": must be refused
+        cands = [(t, d) for t, d in scn["tasks"].items() if not d.get("xg") and d["kind"] != "combine"
+                 and any(S.split_tid(x)[0] == S.split_tid(t)[0] for x in d["deps"])]
+        if cands:
+            t, d = r.choice(cands)
+            x = r.choice([x for x in d["deps"] if S.split_tid(x)[0] == S.split_tid(t)[0]])
+            i = d["deps"].index(x)
+            d["rel"][i] = True
+            d["deps"].append(x)
+            d["rel"].append(False)
+            scn["dup_dep"] = t
     return scn
 
 
@@ -322,7 +336,12 @@ GEN["C05"] = gen_C05
 # ---------------------------------------------------------------------------------------------
 
 def gen_C07(r):
-    scn = _base(r, n=(2, 8), kinds=KW_ALL, p_par=0.4, mon=False, p_async=(0.0,))
+    scn = _base(r, n=(2, 8), kinds=KW_ALL, p_par=0.4, mon=False, p_async=(0.0,), include_p=0.2)
+    if r.random() < 0.15:
+        scn["condout_symlink"] = True
+    for d in scn["tasks"].values():
+        if d.get("args") and r.random() < 0.3 and not d.get("inc"):
+            d["args"] = d["args"] + [r.choice(S.ODD_STR_VALUES)]
     # simple git sometimes, so that the cached-version branch of the snapshot is exercised
     ops = []
     if r.random() < 0.3:
@@ -585,20 +604,20 @@ def _stream_script(r):
 
 def gen_C10(r):
     pk = _pkgs(r)
-    tasks = S.gen_graph(r, r.randint(1, 4), {"exp": 9, "cmd": 1, "group": 1}, pk, p_par=0.5)
+    tasks = S.gen_graph(r, r.randint(1, 4), {"exp": 9, "cmd": 1, "group": 1, "xgroup": 2}, pk, p_par=0.5)
     for t, d in tasks.items():
         if d["kind"] in ("exp", "cmd"):
             if r.random() < 0.6:
-                d["args"] = [S.gen_value(r) for _ in range(r.randint(1, 4))]
+                d["args"] = [S.gen_value(r, odd=True) for _ in range(r.randint(1, 4))]
             else:
                 d.pop("args", None)
             if r.random() < 0.6:
                 keys = r.sample(["threads", "mem", "mode", "fast", "alpha", "z", "a-b", "x_y"], r.randint(1, 4))
-                d["options"] = {k: S.gen_value(r) for k in keys}
+                d["options"] = {k: S.gen_value(r, odd=True) for k in keys}
             else:
                 d.pop("options", None)
     scn = {"epoch": 1_700_000_000 + r.randrange(10**6), "tasks": tasks, "pkgs": pk,
-           "git": {"mode": "none"}, "disable_git": True, "history": [],
+           "git": {"mode": "none"}, "disable_git": True, "history": [], "_inc": r.random() < 0.2,
            "knobs": {"mon": r.random() < 0.6, "p_async": r.choice([0.0, 1e-3, 1e-2, 5e-2]),
                      "p_burst": r.choice([0.0, 0.5]), "bias": r.choice(["uniform", "fifo", "lifo"]),
                      "cpu_count": 2}}
@@ -615,6 +634,8 @@ def gen_C10(r):
             if d["kind"] in ("exp", "cmd"):
                 op["scripts"][t] = [_stream_script(r), _stream_script(r)]
         scn["history"].append(op)
+    if scn.pop("_inc"):
+        S.add_include(r, scn)
     return scn
 
 
@@ -719,6 +740,8 @@ def _plants(r):
         {"kind": "dir", "path": "sub/deep.task.42", "files": ["nested.txt"], "inside": "exp", "idx": r.randrange(5)},
         {"kind": "dir", "path": "x.task.0", "files": ["zero.txt"]},            # timestamp 0 is not a version id
         {"kind": "dir", "path": "bad name.task.5", "files": ["f"]},
+        {"kind": "dir", "path": "pretask.123", "files": ["not-an-output.txt"]},        # no "<name>.task.<n>" at all
+        {"kind": "dir", "path": "xtask", "files": ["plain.txt"]},
     ]
     for it in pool:
         if r.random() < (0.5 if it.get("inside") or "/inner" in it["path"] else 0.3):
@@ -769,6 +792,8 @@ def gen_C13(r):
             ops.append({"op": "restore", "archive": "F0", "cwd": ""})
     if r.random() < 0.7:
         ops.append({"op": "plant", "items": _plants(r)})
+    if r.random() < 0.2:
+        scn["enclosing"] = True
     n_gc = r.choice([1, 1, 2])
     for k in range(n_gc):
         ops.append({"op": "gc", "flags": {"dry": r.random() < 0.45, "verbose": r.random() < 0.4}, "cwd": ""})
@@ -848,6 +873,8 @@ def gen_C17(r):
             ops.append({"op": "git", "action": "nested", "dir": "nocond/deeper"})
             cwd_pool += ["nocond/deeper"] * 3
     cwd_pool += ["@expdir:%d" % r.randrange(6), "@expdir:%d" % r.randrange(6), "@insideexp:%d" % r.randrange(6)]
+    if r.random() < 0.3:
+        scn["enclosing"] = True
     have_arch = None
     for k in range(r.randint(2, 8)):
         c = r.random()
@@ -941,6 +968,11 @@ def _c05_template_merge(r, tasks, exps):
     for _ in range(r.randint(1, 3)):
         tip_m = commit()
         maybe_run(0.55)
+    if r.random() < 0.4:
+        # back to the feature branch for one more execution there (versions in the order X, Y, X)
+        ops.append({"op": "git", "action": "checkout", "target": "feat"})
+        maybe_run(1.0)
+        ops.append({"op": "git", "action": "checkout", "target": "main"})
     first, second = (tip_m, tip_f) if r.random() < 0.7 else (tip_f, tip_m)
     if first != second:
         commit(parents=[first, second])
@@ -948,6 +980,12 @@ def _c05_template_merge(r, tasks, exps):
         commit()
         maybe_run(0.2)
     ops += _c05_ops_where_run(r, tasks, exps, r.randint(1, 3))
+    if r.random() < 0.6:
+        # "at least as new as" a commit of either side of the merge
+        for _ in range(r.randint(1, 2)):
+            ops.append({"op": "run", "target": S.pick_target(r, tasks, 0.7),
+                        "flags": {"at_least": r.choice([sim_hash(tip_f), sim_hash(tip_m), "feat", sim_hash("c0")])},
+                        "cwd": "", "gap": 1.0, "scripts": {}})
     return ops
 
 
@@ -973,6 +1011,10 @@ def _c05_template_null_foreign(r, tasks, exps):
     ops.append({"op": "git", "action": "checkout", "target": "main"})
     if r.random() < 0.3:
         ops.append({"op": "git", "action": "commit", "name": "a2"})
+    if r.random() < 0.3:
+        # history thrown away (rm -rf .git && git init, or an orphan branch): HEAD has no commit yet,
+        # the recorded versions still carry the old hashes
+        ops.append({"op": "git", "action": "init"})
     ops += _c05_ops_where_run(r, tasks, exps, r.randint(1, 3))
     return ops
 
